@@ -47,6 +47,10 @@ func zzGenErr(ek, nd int) error {
 		return errors.New(vfString("text", 2))
 	case 4:
 		return context.Canceled
+	case 8:
+		return io.EOF // e.g. a handler returning its own Recv's io.EOF as an error
+	case 9:
+		return fmt.Errorf("giving up: %w", io.EOF)
 	default:
 		return context.DeadlineExceeded
 	}
